@@ -111,6 +111,29 @@ def split_function(fn):
     loc = {n.id for n in ast.walk(fn) if isinstance(n, ast.Name) and isinstance(n.ctx, ast.Store)} | set(params)
     live = [n for n in live_in(loop) if n in loc]
     state = [n for n in live if n not in params]
+    # loop-invariant locals: a name the loop never writes, bound exactly once (before the loop, at the top level of the function or of the
+    # block that holds the loop) to an expression over the parameters alone (`size = len(data)`), is not STATE: its defining statement
+    # is repeated in front of the step / test functions, so that the step proof knows e.g. that the bound is the length of the data
+    written_in_loop = {n.id for n in ast.walk(loop) if isinstance(n, ast.Name) and isinstance(n.ctx, ast.Store)}
+    remat = []
+    enclosing = [lst0 for (lst0, _k0) in chain]
+    for nme in list(state):
+        if nme in written_in_loop:
+            continue
+        defs = [x for x in ast.walk(fn) if isinstance(x, (ast.Assign, ast.AnnAssign, ast.AugAssign, ast.For, ast.With, ast.NamedExpr))
+                and any(isinstance(t, ast.Name) and isinstance(t.ctx, ast.Store) and t.id == nme for t in ast.walk(x))]
+        if len(defs) != 1 or not isinstance(defs[0], ast.Assign) or len(defs[0].targets) != 1 or not isinstance(defs[0].targets[0], ast.Name):
+            continue
+        d = defs[0]
+        if not any(any(s is d for s in lst0) for lst0 in enclosing) or (d.lineno, d.col_offset) >= (loop.lineno, loop.col_offset):
+            continue
+        reads = {x.id for x in ast.walk(d.value) if isinstance(x, ast.Name)}
+        if not reads <= (set(params) | {"len", "int", "abs", "min", "max"}) or any(isinstance(x, (ast.Yield, ast.Await, ast.NamedExpr, ast.Lambda)) for x in ast.walk(d.value)):
+            continue
+        if any(isinstance(x, ast.Name) and isinstance(x.ctx, ast.Store) and x.id in params for x in ast.walk(fn)):
+            continue        # a parameter is re-bound somewhere: its value at the loop may differ from the one at the definition
+        remat.append(d)
+        state.remove(nme)
 
     def mkfn(name, args, body):
         f = ast.FunctionDef(name=name, args=ast.arguments(posonlyargs=[], args=[ast.arg(arg=a) for a in args], kwonlyargs=[], kw_defaults=[], defaults=[]),
@@ -148,8 +171,8 @@ def split_function(fn):
     body = [T().visit(copy.deepcopy(s)) for s in loop.body]
     step_body = [ast.If(test=copy.deepcopy(loop.test), body=body + [ast.Return(value=tag("next", *names(state)))],
                         orelse=[ast.Return(value=tag("exit"))])]
-    step = mkfn("__step", params + state, step_body)
-    test = mkfn("__test", params + state, [ast.Return(value=copy.deepcopy(loop.test))])
+    step = mkfn("__step", params + state, [copy.deepcopy(d) for d in remat] + step_body)
+    test = mkfn("__test", params + state, [copy.deepcopy(d) for d in remat] + [ast.Return(value=copy.deepcopy(loop.test))])
     post = mkfn("__post", params, post_body or [ast.Return(value=ast.Constant(value=None))])
     return pre, step, post, test, state, params
 
